@@ -118,6 +118,9 @@ def run_program(tier, idx, prog=None, plan=None, seed=None):
                     kind, pos = r.choice(cand)
                     old = a3[pos] if kind == 'a' else k3[pos]
                     new = r.choice([v for v in sk.CALL_POOL if not (v == old)])
+                    # every fourth mutation: the value vs the text of its own repr ('1' for 1, "'a'" for 'a') - encoders that go through
+                    # str()/repr() must still tell them apart
+                    if r.random() < (0.6 if (len(args) == 1 and not kw) else 0.25) and old is not inst and not isinstance(old, sk.Obj): new = repr(old)
                     if kind == 'a': a3[pos] = new
                     else: k3[pos] = new
                     try: sk.full_bind(f, a3, k3); sk.sbind(sig, a3, k3)
@@ -341,7 +344,8 @@ def run_program(tier, idx, prog=None, plan=None, seed=None):
                                 tags['C10-pair'] += 1
                                 if same:
                                     viol.append(dict(prop='C10', sig=dict(kind='different-calls-share-key', keymap=kmk, flat=flat, typed=typed,
-                                                                          ignore_dstar='**' in ign, str_unwrap=(kmk == 'string' and flat and not typed)),
+                                                                          ignore_dstar='**' in ign,
+                                                                          str_unwrap=(kmk == 'string' and flat and not typed and all(len(q['keygen'].get('va', ())) == 1 and not q['keygen'].get('kw') for q in (base, rec)))),
                                                      msg='%s%r ignore=%r: %r vs %r bind different values but share key %r' % (
                                                          kmk, kmo, ign, (base['args'], base['kw']), (rec['args'], rec['kw']), eb['key']), item=dict(ci=rec['ci'])))
                                     if ign:
